@@ -147,9 +147,17 @@ def quadratic_bbox(c, mx, my):
         return list(rx) if len(polys) == 1 else list(ry)
     c.ip.summaries['polytools.polyroots'] = polyroots_contract
     xmin, xmax, ymin, ymax = c.items(c.callm(seg, 'bbox'))
-    c.ensures('two-root-problems', len(polys) == 2)
     X = [ops.re(p) for p in P]
     Y = [ops.im(p) for p in P]
+    if len(polys) != 2:
+        # the code does not go through the root finder (any more): nothing to be relative to -
+        # containment and attainment are then stated directly, for all control values
+        inside = ops.And(ops.le(0, t), ops.le(t, 1))
+        for co, lo, hi, nm in ((X, xmin, xmax, 'x'), (Y, ymin, ymax, 'y')):
+            B = bez.bern(co, t)
+            c.ensures('%smin<=%s(t)<=%smax(direct)' % (nm, nm, nm), ops.Implies(inside, ops.And(ops.le(lo, B), ops.le(B, hi))))
+        return
+    c.ensures('two-root-problems', len(polys) == 2)
     c.ensures('x-roots-of-dx/dt', ops.eq(c.call(polys[0], t), bez.dbern(X, t, 1)))
     c.ensures('y-roots-of-dy/dt', ops.eq(c.call(polys[1], t), bez.dbern(Y, t, 1)))
     for co, roots, lo, hi, nm in ((X, rx, xmin, xmax, 'x'), (Y, ry, ymin, ymax, 'y')):
